@@ -921,6 +921,23 @@ Proof.
   intros H1 H2 H3 H4 H5 H6 H7 H8 H9 H10 H11 a Hwf. apply (satisfies_model_output_proved a Go Hwf); left; go_flag.
 Qed.
 
+(* the same with the observation spelled out: with the eleventh flag true the compiler shows the direct ancestors *)
+Theorem go_meets_spec_plain_proved :
+  parser_uniques_numbered_per_type = true -> parser_nested_tables_inherit = true -> parser_view_refs_recorded = true ->
+  parser_inherited_grants_once = true -> parser_lookup_respects_package = true -> parser_inherits_in_own_package = true ->
+  parser_descriptor_refs_analysed = true ->
+  parser_inherited_nested_in_own_package = true -> parser_diamond_below_heir_accepted = true -> parser_grant_inherited_columns = true ->
+  parser_ancestors_direct = true ->
+  forall a, wf a = true ->
+  exists d, compile a Go = Some d /\ satisfies (Trace a (render a) (Compiled d true true true)) = true.
+Proof.
+  intros H1 H2 H3 H4 H5 H6 H7 H8 H9 H10 H11 a Hwf.
+  destruct (go_meets_spec_proved H1 H2 H3 H4 H5 H6 H7 H8 H9 H10 H11 a Hwf) as (d & Hc & Hs).
+  exists d. split; auto.
+  replace (direct_anc_shown a Go) with true in Hs; auto.
+  unfold direct_anc_shown, Go. cbn [m_direct_anc]. rewrite H11. reflexivity.
+Qed.
+
 (* the same while some repairs are missing: the schema avoids the shapes the missing ones are about *)
 Theorem go_meets_spec_within_proved :
   parser_uniques_numbered_per_type = true -> parser_nested_tables_inherit = true -> parser_view_refs_recorded = true ->
